@@ -282,6 +282,8 @@ type VerifWriteRec struct {
 	N    int
 	Err  error
 	Ctx  bool // Err is the context's error
+	// CtxEndedAtEntry: the request's context had already ended when writeContext was called
+	CtxEndedAtEntry bool
 }
 
 type verifRecWriter struct {
@@ -290,8 +292,9 @@ type verifRecWriter struct {
 }
 
 func (w *verifRecWriter) writeContext(ctx context.Context, p []byte) (int, error) {
+	endedAtEntry := ctx.Err() != nil
 	n, err := w.inner.writeContext(ctx, p)
-	*w.log = append(*w.log, VerifWriteRec{Data: append([]byte(nil), p...), N: n, Err: err, Ctx: err != nil && (err == context.Canceled || err == context.DeadlineExceeded)})
+	*w.log = append(*w.log, VerifWriteRec{Data: append([]byte(nil), p...), N: n, Err: err, Ctx: err != nil && (err == context.Canceled || err == context.DeadlineExceeded), CtxEndedAtEntry: endedAtEntry})
 	return n, err
 }
 
